@@ -47,7 +47,7 @@ fn main() {
     type Check = fn(u64, u64) -> Assumption;
     let checks: Vec<Check> = vec![
         a_dec::a01, a_dec::a02, a_dec::a03, a_dec::a04, a_dec::a05, a_dec::a06, a_dec::a07, a_dec::a08, a_dec::a09, a_dec::a10,
-        a_dec::a11, a_dec::a12, a_div::a13, a_div::a14, a_div::a14r, a_other::a15, a_other::a16, a_other::a17, a_other::a18, a_dec::a19, a_dec::a20, a_dec::a21,
+        a_dec::a11, a_dec::a12, a_div::a13, a_div::a14, a_div::a14r, a_div::a22, a_div::a23, a_div::a24, a_other::a15, a_other::a16, a_other::a17, a_other::a18, a_dec::a19, a_dec::a20, a_dec::a21,
     ];
     let t0 = Instant::now();
     let mut rep = Report { seed, iters, items: Vec::new() };
